@@ -20,6 +20,7 @@ children = `k - 1` splits along the right spine).  Soundness holds for every `k`
 -/
 import RegexVerif.Model.Spec
 import RegexVerif.Model.Finders
+import RegexVerif.Model.Facts
 
 namespace RegexVerif.LoopFacts
 open RegexVerif.Spec RegexVerif.Finders
@@ -191,5 +192,18 @@ def lalOf (k : Nat) (p : Pat) : Option SymLal :=
         | _ => none
     | none => none
   | [] => none
+
+/-- second analysis for the literal after the loop, for what follows the loop in ANY shape: the leading
+    prefix of the remainder as `tryFindPrefix` computes it (Model/Facts.lean, rune encoding) — alternations
+    with a common prefix, loops with a minimum, captures … -/
+def lalPrefixOf (p : Pat) : Option (Pred × List Nat) :=
+  match unwrap p with
+  | .seq first R =>
+    match unboundedLoop? first with
+    | some (P, _) =>
+      let w := (Facts.leadingPrefix (fun r => [r]) R).1
+      if w.isEmpty then none else some (P, w)
+    | none => none
+  | _ => none
 
 end RegexVerif.LoopFacts
